@@ -48,15 +48,15 @@ class Reductions(Harness):
     name = "reductions"
     functions = ("streamable.__call__/_args_stream", "reductions.bincount_reduce/sum_and_n/mean", "count_kmers (sum reduction)",
                  "groupby/get_changes/join_groupbys", "streams.BnpStream")
-    bounds = {"quick": "n = 4 entries (thorough 6) x ALL 2^(n-1) chunkings; mean (exact real), bincount over values in [0,3], k-mer counts "
+    bounds = {"quick": "n = 4 entries (thorough 6) x ALL 2^(n-1) chunkings; mean (exact real), bincount and 3-bin histograms (with and without an explicit range) over values in [0,3], k-mer counts "
                        "(k=1,2 over ACGT rows), group-by on a sorted key with splits inside groups",
               "thorough": "n = 6"}
-    assumptions = ("float means are compared in the exact-real model", "np.histogram is not encoded")
+    assumptions = ("float means and histogram bin edges are compared in the exact-real model",)
 
     def skeletons(self, tier, seed):
         n = 4 if tier == "quick" else 6
         out = []
-        for comp in ("mean", "bincount", "kmers", "groupby"):
+        for comp in ("mean", "bincount", "kmers", "groupby", "histogram_range", "histogram"):
             for ch in chunkings(n):
                 out.append(dict(comp=comp, n=n, chunks=ch))
         return out
@@ -68,7 +68,7 @@ class Reductions(Harness):
         if skel["comp"] == "mean":
             for i in range(n):
                 V.int(f"v{i}", -20, 20)
-        elif skel["comp"] == "bincount":
+        elif skel["comp"] in ("bincount", "histogram_range", "histogram"):
             for i in range(n):
                 V.int(f"v{i}", 0, 3)
         elif skel["comp"] == "kmers":
@@ -83,10 +83,15 @@ class Reductions(Harness):
         from bionumpy import streams
         from bionumpy.streams import BnpStream, NpDataclassStream
         n, comp, chunks = skel["n"], skel["comp"], skel["chunks"]
-        if comp in ("mean", "bincount"):
+        if comp in ("mean", "bincount", "histogram_range", "histogram"):
             mk = lambda a, b: ctx.arr([x[f"v{i}"] for i in range(a, b)], "int64")
             whole = mk(0, n)
             stream = BnpStream(mk(a, b) for a, b in chunks)
+            if comp.startswith("histogram"):
+                kw = dict(bins=3, range=(0, 3)) if comp == "histogram_range" else dict(bins=3)
+                hs, es = streams.histogram(stream, **kw)
+                hw, ew = ctx.np.histogram(whole, **kw)
+                return dict(stream=[ctx.lst(hs), ctx.lst(es)], whole=[ctx.lst(hw), ctx.lst(ew)])
             if comp == "mean":
                 return dict(stream=ctx.lst(streams.mean(stream)), whole=ctx.lst(streams.mean(whole)))
             from bionumpy.streams.reductions import bincount
